@@ -76,11 +76,16 @@ class CheckWeakECPrivateKey:
              INFO: ["assert [C02,C16,C17] args[0] is key.test_info",
                     "assert [C02] args[1] == 'DISCRETE_LOG'",
                     # the recorded value is the hex form of a true discrete logarithm of this key's public point
+                    # (over the logarithm view of the group: for a public point inside <G>; every point of a named
+                    # curve of cofactor 1 that passes CheckValidECKey is)
                     "assert [C02] discrete_logs[_i1] is not None and args[2] == hex_of(discrete_logs[_i1]) and "
-                    "is_dlog(curve, discrete_logs[_i1], bval(key.ec_info.x), bval(key.ec_info.y))",
+                    "implies(in_group(curve, bval(key.ec_info.x), bval(key.ec_info.y)), "
+                    "is_dlog(curve, discrete_logs[_i1], bval(key.ec_info.x), bval(key.ec_info.y)))",
                     "g_attached = True"]}
   return_hints = list(RET)
   total = True
+  # the only exception left open: BatchInverse's internal self-check, reached through ExtendedBatchDL -> BatchDL
+  raises = {"ArithmeticError": None}
   props = ["C02", "C10", "C16", "C17", "C18"]
 
 
